@@ -45,6 +45,7 @@ func checkC01(ctx *Ctx, r *Report) {
 	c01UnionClassifiedWithoutNull(ctx, r)
 	c01OmitEmptyOnCollections(ctx, r)
 	c01LoopLocalResult(ctx, r)
+	c12UnionWrapperClassified(ctx, r)
 }
 
 func checkC11(ctx *Ctx, r *Report) {
@@ -62,7 +63,10 @@ func checkC11(ctx *Ctx, r *Report) {
 	c02PythonIdentifierCharacters(ctx, r)
 	c11AbsentStaysAbsent(ctx, r)
 	c12GoByteArrays(ctx, r)
+	c12UnionWrapperClassified(ctx, r)
+	c05OpenAPIMappingNames(ctx, r)
 	c11ThirdRound(ctx, r)
+	c11FourthRound(ctx, r)
 	c06NullableGuardExact(ctx, r)
 	c11HintMonotone(ctx, r)
 	c11GoPointerLast(ctx, r)
@@ -1989,9 +1993,33 @@ func c11HuntedRules(ctx *Ctx, r *Report) {
 							}
 							return true
 						})
-						if lit != nil {
+						// every result of the closure is a formatted class name, directly or through another local closure of which
+						// the same holds (`classOf`, which follows aliases before formatting the reference)
+						localLit := func(fun ast.Expr) *ast.FuncLit {
+							lid, ok := ast.Unparen(fun).(*ast.Ident)
+							if !ok {
+								return nil
+							}
+							var found *ast.FuncLit
+							ast.Inspect(fd.Body, func(q ast.Node) bool {
+								if as, ok := q.(*ast.AssignStmt); ok && len(as.Lhs) == 1 && len(as.Rhs) == 1 {
+									if l, ok := as.Lhs[0].(*ast.Ident); ok && objOf(info, l) == objOf(info, lid) {
+										if fl, ok := as.Rhs[0].(*ast.FuncLit); ok {
+											found = fl
+										}
+									}
+								}
+								return true
+							})
+							return found
+						}
+						var formats func(l *ast.FuncLit, depth int) bool
+						formats = func(l *ast.FuncLit, depth int) bool {
 							all, any := true, false
-							ast.Inspect(lit.Body, func(q ast.Node) bool {
+							ast.Inspect(l.Body, func(q ast.Node) bool {
+								if inner, ok := q.(*ast.FuncLit); ok && inner != l {
+									return false
+								}
 								rs, ok := q.(*ast.ReturnStmt)
 								if !ok || len(rs.Results) != 1 {
 									return true
@@ -2002,13 +2030,19 @@ func c11HuntedRules(ctx *Ctx, r *Report) {
 									all = false
 									return true
 								}
-								f := callee(info, rc)
-								if f == nil || (f != fmtObj && f.Name() != "formatFullyQualifiedRef") {
-									all = false
+								if f := callee(info, rc); f != nil && (f == fmtObj || f.Name() == "formatFullyQualifiedRef") {
+									return true
 								}
+								if inner := localLit(rc.Fun); inner != nil && depth < 2 && formats(inner, depth+1) {
+									return true
+								}
+								all = false
 								return true
 							})
-							formatted = all && any
+							return all && any
+						}
+						if lit != nil {
+							formatted = formats(lit, 0)
 						}
 					}
 				}
@@ -2356,4 +2390,43 @@ func c11AbsentStaysAbsent(ctx *Ctx, r *Report) {
 	r.Check(selects && resets, "skeleton/python-absent-stays-absent", "python from_json resets what the constructor set for absent optional properties", fd.Pos(),
 		"non-required constants and defaulted properties are collected and reset under `not in data`",
 		"from_json returns cls(**args) as it is: an optional constant (`kind?: \"root\"`) or an optional property with a default is set by the constructor although the document does not hold it, and to_json writes it — {\"name\":\"x\"} comes back as {\"kind\":\"root\",\"name\":\"x\"}, while Go re-emits the document unchanged")
+}
+
+// c11FourthRound: the discriminator mapping holds bare object names, which do not tell `liba.Cat` from `libb.Cat`, nor
+// an alias from the class it names. The Python decoding map has to (a) choose among same-named branches by the value
+// their discriminator field holds — disjunctionFromJSON looks that field up in the branch's struct
+// (FieldByName(<disjunction>.Discriminator)) — and (b) follow aliases to a class (a loop over LocateObjectByRef), an
+// alias being a string at run time.
+func c11FourthRound(ctx *Ctx, r *Report) {
+	fn := ctx.LookupMethod("internal/jennies/python", "RawTypes", "disjunctionFromJSON")
+	fd, p := ctx.DeclOf(fn)
+	if fd == nil || fd.Body == nil {
+		r.Undecided("anchor lost: python.RawTypes.disjunctionFromJSON")
+		return
+	}
+	info := p.TypesInfo
+	byValue, followsAliases := false, false
+	ast.Inspect(fd.Body, func(m ast.Node) bool {
+		switch x := m.(type) {
+		case *ast.CallExpr:
+			if f := callee(info, x); f != nil && f.Name() == "FieldByName" && len(x.Args) == 1 && strings.HasSuffix(exprString(x.Args[0]), ".Discriminator") {
+				byValue = true
+			}
+		case *ast.ForStmt:
+			ast.Inspect(x.Body, func(q ast.Node) bool {
+				if c, ok := q.(*ast.CallExpr); ok {
+					if f := callee(info, c); f != nil && strings.HasPrefix(f.Name(), "LocateObject") {
+						followsAliases = true
+					}
+				}
+				return true
+			})
+		}
+		return true
+	})
+	r.Count("hunted clauses of the Python union decoder (4th round)", 2)
+	r.Check(byValue, "selectors/python-branch-by-discriminator-value", "python.disjunctionFromJSON tells same-named branches apart", fd.Pos(), "the branch is chosen by the value of its discriminator field",
+		"the decoding map resolves each mapping entry to the first branch with that *name*: for `liba.Cat | libb.Cat` both entries give liba.Cat — a catb document is decoded as a liba.Cat and written back as another document, silently")
+	r.Check(followsAliases, "selectors/python-branch-by-discriminator-value", "python.disjunctionFromJSON follows aliases to a class", fd.Pos(), "a branch that is an alias is replaced by the class it names",
+		"the decoding map holds the branch as it is: for `MyCat: Cat; pet: MyCat | Dog` that is the alias, a string at run time — AttributeError: 'str' object has no attribute 'from_json'")
 }
